@@ -336,3 +336,29 @@ Proof.
   split; [exists (bs "1.2.3.4"); split; [reflexivity|vm_compute; intuition discriminate]|].
   vm_compute. reflexivity.
 Qed.
+
+(* ---------------------------------------------------------------- a sink that fails (Model/ScrubFail.v)
+   LogScrubber.Write leaves its buffer untouched when the sink's Write returns an error: the complete lines are offered again
+   with the next Write.  A write is (bytes, ok); the output is what the sink ACCEPTED.  A failing sink only delays: the accepted
+   output is that of the merged writes on a sink that never fails, so every theorem above carries over - in particular only
+   scrubbed complete lines are ever accepted and nothing is lost.  Tie: op `writef` (a sink whose first call takes k bytes and
+   fails; every line reaching the sink afterwards must be the scrubbed form of a complete line of the input). *)
+From Snow Require Import Model.ScrubFail Proofs.ScrubFailProofs.
+
+Theorem C07_failing_sink_delays_only : forall ws,
+  run_writes_f (scrub full_patterns) [] ws =
+  (let (m, c) := merge_writes [] ws in
+   let (o, p) := run_writes (write (scrub full_patterns)) [] m in (o, p ++ c)).
+Proof. exact (failing_sink_delays_only (scrub full_patterns)). Qed.
+
+Theorem C07_failing_sink_complete_lines : forall ws outs pend,
+  run_writes_f (scrub full_patterns) [] ws = (outs, pend) ->
+  exists lines, outs = map (scrub full_patterns) lines /\ Forall is_line lines /\
+                concat lines ++ pend = concat (map fst ws).
+Proof. exact (failing_sink_complete_lines (scrub full_patterns)). Qed.
+
+(* "a 1.2.3.4\n" offered to a failing sink, then "b\n" to a working one: both lines are accepted then, the address scrubbed *)
+Example C07_failing_sink_example :
+  run_writes_f (scrub full_patterns) [] [(bs "a 1.2.3.4" ++ [10%N], false); (bs "b" ++ [10%N], true)] =
+  ([bs "a [scrubbed]" ++ [10%N]; bs "b" ++ [10%N]], []).
+Proof. vm_compute. reflexivity. Qed.
